@@ -2,6 +2,7 @@
 (Tulz/Model/Pool.lean, namespace TPool), with direct trace monitors for every clause of the two properties."""
 import json
 import os
+import threading
 
 import lib
 import schedtie
@@ -461,6 +462,9 @@ def load_corpus():
 def run_tie(prop, spec, tier, seed):
     res = TieResult()
     rng = lib.SplitMix(seed).fork("pool")
+    # the expiring-worker harness is a second binary: compile it while the first one builds and runs (cached by content hash)
+    xbuild = threading.Thread(target=poolx.build)
+    xbuild.start()
     binary, out = schedtie.build("pool_harness", HARNESS, REPO_SRC)
     if binary is None:
         res.failures.append(Failure("infra", "harness does not compile against the working tree", replay={"compiler": out[-3000:]}))
@@ -584,6 +588,7 @@ def run_tie(prop, spec, tier, seed):
                                                     "mismatch": bad}))
     res.extra["model_mismatches"] = nmm
     # expiring workers + update() under a virtual clock (model TPoolX)
+    xbuild.join()
     xr = poolx.run(prop, tier, rng.fork("poolx"), res, batch, dfs)
     if xr is not None:
         res.evaluations += xr["executed"]
